@@ -130,6 +130,7 @@ spec fn lineOf(e error) int = as(e, "*LineError").Line
   inline
 
 func Parse
+  logged
   requires dst != nil
   // what a line means is Record.UnmarshalText's business (property C07);
   // Parse only needs its frame and the log of its calls
@@ -189,6 +190,17 @@ spec fn storageOK(s *DefaultStorage) bool =
   (forall a: haskey(s.names, a) ==> osOKs(mapget(s.names, a))) &&
   (forall h: haskey(s.addrs, h) ==> osOKa(mapget(s.addrs, h)))
   inline
+
+// NewDefaultStorage: every reader is parsed on its own, in order, into the
+// new storage (a source name and the line numbers are per reader).
+func NewDefaultStorage
+  ensures one_parse_per_reader: err == nil ==> calls("hostsfile.Parse") == len(readers) && s != nil
+  ensures stops_at_first_error: err != nil ==> s == nil && calls("hostsfile.Parse") >= 1 && calls("hostsfile.Parse") <= len(readers)
+  loop 0
+    invariant s != nil && fresh(s) && !isnil(s.names) && !isnil(s.addrs)
+    invariant parsed_so_far: calls("hostsfile.Parse") == rangeindex + 1
+    invariant latest_is_this_reader: rangeindex >= 0 ==> callarg("hostsfile.Parse", 1) == readers[rangeindex] &&
+      typeis(callarg("hostsfile.Parse", 0), "*DefaultStorage") && as(callarg("hostsfile.Parse", 0), "*DefaultStorage") == s
 
 func (*orderedSet).add
   requires os != nil && os.set != nil && !isnil(os.set.m)
